@@ -32,22 +32,22 @@ Proof.
   intro H. unfold of_be. rewrite <- rev_length. apply sfd_of_le_lt. apply bytes_ok_rev. exact H.
 Qed.
 
-(* ---- evaluating tbl_denote on a literal table ---- *)
+(* ---- evaluating sftbl_denote on a literal table ---- *)
 Ltac den_decide E :=
-  unfold lv_matches, lv_len in E; cbn [lv_payload lv_pbits lv_prefix length nth] in E;
+  unfold sflv_matches, sflv_len in E; cbn [sflv_payload sflv_pbits sflv_prefix length nth] in E;
   rewrite ?length_le_bytes in E;
   change (2 =? 8) with false in E; change (8 =? 8) with true in E; cbv iota in E;
   try (exfalso; lia).
 Ltac den_step :=
   match goal with
-  | |- context [tbl_denote (?l :: ?t) ?b] =>
-      change (tbl_denote (l :: t) b)
-        with (if lv_matches l b then Some (lv_decode l b) else tbl_denote t b);
-      let E := fresh "E" in destruct (lv_matches l b) eqn:E; cbv iota; den_decide E
+  | |- context [sftbl_denote (?l :: ?t) ?b] =>
+      change (sftbl_denote (l :: t) b)
+        with (if sflv_matches l b then Some (sflv_decode l b) else sftbl_denote t b);
+      let E := fresh "E" in destruct (sflv_matches l b) eqn:E; cbv iota; den_decide E
   end.
 Ltac den_go := repeat den_step.
 Ltac den_ext k :=
-  unfold lv_decode; cbn [lv_pbits lv_base tl]; change (8 =? 8) with true; cbv iota;
+  unfold sflv_decode; cbn [sflv_pbits sflv_base tl]; change (8 =? 8) with true; cbv iota;
   rewrite of_le_le_bytes; change (256 ^ N.of_nat k) with (256 ^ N.of_nat k);
   sfl_norm_pow; f_equal; lia.
 
@@ -56,14 +56,14 @@ Proof.
   intro Hx. rewrite sf_put_norm by exact Hx.
   unfold sf_denote, sf_norm, sf_table.
   destruct (x <=? 63) eqn:E1.
-  { den_go. unfold lv_decode, of_be. cbn [lv_pbits lv_base lv_prefix rev app of_le].
+  { den_go. unfold sflv_decode, of_be. cbn [sflv_pbits sflv_base sflv_prefix rev app of_le].
     change (2 =? 8) with false. cbv iota. f_equal. lia. }
   destruct (x <=? 16446) eqn:E2.
-  { den_go. unfold lv_decode, of_be, lv_bits. cbn [lv_pbits lv_base lv_prefix lv_payload rev app of_le].
+  { den_go. unfold sflv_decode, of_be, sflv_bits. cbn [sflv_pbits sflv_base sflv_prefix sflv_payload rev app of_le].
     change (2 =? 8) with false. cbv iota. change (2 ^ (8 * N.of_nat 1 + (8 - 2))) with 16384.
     f_equal. lia. }
   destruct (x <=? 4210749) eqn:E3.
-  { den_go. unfold lv_decode, of_be, lv_bits. cbn [lv_pbits lv_base lv_prefix lv_payload rev app of_le].
+  { den_go. unfold sflv_decode, of_be, sflv_bits. cbn [sflv_pbits sflv_base sflv_prefix sflv_payload rev app of_le].
     change (2 =? 8) with false. cbv iota. change (2 ^ (8 * N.of_nat 2 + (8 - 2))) with 4194304.
     f_equal. lia. }
   destruct (sfl_kw_cases (x - 4210749) ltac:(lia)) as
@@ -79,11 +79,11 @@ Qed.
 
 (* ---------------- shortest encoding ---------------- *)
 
-Lemma tbl_denote_inv t b x : tbl_denote t b = Some x ->
-  exists l, In l t /\ lv_matches l b = true /\ x = lv_decode l b.
+Lemma sftbl_denote_inv t b x : sftbl_denote t b = Some x ->
+  exists l, In l t /\ sflv_matches l b = true /\ x = sflv_decode l b.
 Proof.
-  induction t as [|l t IH]; cbn [tbl_denote]; [discriminate|].
-  destruct (lv_matches l b) eqn:E.
+  induction t as [|l t IH]; cbn [sftbl_denote]; [discriminate|].
+  destruct (sflv_matches l b) eqn:E.
   - intro H. injection H as <-. exists l. split; [left; reflexivity|]. split; [exact E|reflexivity].
   - intro H. destruct (IH H) as (l' & I & M & D). exists l'. split; [right; exact I|].
     split; assumption.
@@ -91,16 +91,16 @@ Qed.
 
 (* what a matching external row says about the bytes *)
 Lemma sfd_ext_bound b p base prefix used x :
-  bytes_ok b -> lv_matches (SfLevel prefix 8 p base used) b = true ->
-  x = lv_decode (SfLevel prefix 8 p base used) b ->
+  bytes_ok b -> sflv_matches (SfLevel prefix 8 p base used) b = true ->
+  x = sflv_decode (SfLevel prefix 8 p base used) b ->
   length b = S p /\ nth 0 b 0 = prefix /\ x = base + of_le (tl b) /\
   of_le (tl b) < 256 ^ N.of_nat p.
 Proof.
-  intros Hb M D. unfold lv_matches, lv_len in M. cbn [lv_payload lv_pbits lv_prefix] in M.
+  intros Hb M D. unfold sflv_matches, sflv_len in M. cbn [sflv_payload sflv_pbits sflv_prefix] in M.
   change (8 =? 8) with true in M. cbv iota in M.
   apply andb_prop in M. destruct M as (M1 & M2).
   apply Nat.eqb_eq in M1. apply N.eqb_eq in M2.
-  unfold lv_decode in D. cbn [lv_pbits lv_base] in D. change (8 =? 8) with true in D. cbv iota in D.
+  unfold sflv_decode in D. cbn [sflv_pbits sflv_base] in D. change (8 =? 8) with true in D. cbv iota in D.
   destruct b as [|a b']; [discriminate|]. cbn [tl length] in *.
   assert (Hb' : bytes_ok b') by (unfold bytes_ok in *; inversion Hb; assumption).
   pose proof (sfd_of_le_lt b' Hb') as L. injection M1 as M1. rewrite M1 in L.
@@ -115,15 +115,15 @@ Qed.
 
 (* what a matching embedded row says *)
 Lemma sfd_emb_bound b p base prefix used x :
-  bytes_ok b -> lv_matches (SfLevel prefix 2 p base used) b = true ->
-  x = lv_decode (SfLevel prefix 2 p base used) b ->
+  bytes_ok b -> sflv_matches (SfLevel prefix 2 p base used) b = true ->
+  x = sflv_decode (SfLevel prefix 2 p base used) b ->
   length b = S p /\ base <= x /\ x < base + 64 * 256 ^ N.of_nat p.
 Proof.
-  intros Hb M D. unfold lv_matches, lv_len in M. cbn [lv_payload lv_pbits lv_prefix] in M.
+  intros Hb M D. unfold sflv_matches, sflv_len in M. cbn [sflv_payload sflv_pbits sflv_prefix] in M.
   change (2 =? 8) with false in M. cbv iota in M.
   apply andb_prop in M. destruct M as (M1 & M2).
   apply Nat.eqb_eq in M1. apply N.eqb_eq in M2.
-  unfold lv_decode, lv_bits in D. cbn [lv_pbits lv_base lv_prefix lv_payload] in D.
+  unfold sflv_decode, sflv_bits in D. cbn [sflv_pbits sflv_base sflv_prefix sflv_payload] in D.
   change (2 =? 8) with false in D. cbv iota in D. rewrite sfd_pow_bits in D.
   destruct b as [|a b']; [discriminate|]. cbn [nth length] in *.
   assert (Ha : a < 256) by (unfold bytes_ok in Hb; inversion Hb; assumption).
@@ -147,7 +147,7 @@ Theorem sf_shorter_only_unused_row b x :
   4210749 <= x <= 4211004 /\ b = [193; x - 4210749].
 Proof.
   intros Hb D Hx Hs. unfold sf_denote in D.
-  destruct (tbl_denote_inv _ _ _ D) as (l & I & M & Dl).
+  destruct (sftbl_denote_inv _ _ _ D) as (l & I & M & Dl).
   destruct sf_max_values as (M1 & M2 & M3 & M4 & M5 & M6 & M7 & M8 & M9 & _).
   unfold sf_table in I. cbn [In] in I.
   destruct I as [I|[I|[I|[I|[I|[I|[I|[I|[I|[I|[I|[]]]]]]]]]]]]; subst l.
@@ -205,7 +205,7 @@ Theorem sf_never_shrink_window x : 4210749 <= x <= 4211004 ->
 Proof.
   intro R. split.
   - unfold sf_denote, sf_table. den_go.
-    unfold lv_decode. cbn [lv_pbits lv_base tl of_le]. change (8 =? 8) with true. cbv iota.
+    unfold sflv_decode. cbn [sflv_pbits sflv_base tl of_le]. change (8 =? 8) with true. cbv iota.
     f_equal. lia.
   - assert (Hx : x < 18446744073709551616) by lia.
     destruct sf_max_values as (M1 & M2 & M3 & _).
@@ -231,11 +231,11 @@ Qed.
 Lemma sfnz_denote_sf b :
   sfnz_denote b = match sf_denote b with Some y => Some (y + 1) | None => None end.
 Proof.
-  unfold sfnz_denote, sf_denote, sfnz_table, sf_table, tbl_denote, lv_matches, lv_len.
-  cbn [lv_payload lv_pbits lv_prefix].
+  unfold sfnz_denote, sf_denote, sfnz_table, sf_table, sftbl_denote, sflv_matches, sflv_len.
+  cbn [sflv_payload sflv_pbits sflv_prefix].
   repeat match goal with
   | |- (if ?c then _ else _) = _ =>
-      destruct c; cbv iota; [unfold lv_decode, lv_bits; cbn [lv_pbits lv_base lv_prefix lv_payload]; f_equal; lia|]
+      destruct c; cbv iota; [unfold sflv_decode, sflv_bits; cbn [sflv_pbits sflv_base sflv_prefix sflv_payload]; f_equal; lia|]
   end.
   reflexivity.
 Qed.
